@@ -4,8 +4,8 @@ CONSTANTS
   Keys <- MCKeys
   TwoQueues = TRUE
   SkipAfterDelete = TRUE
-  MaxCalls = 3
+  MaxCalls = 2
   MaxPubs = 1
-  SplitPub = FALSE
+  SplitPub = TRUE
 INVARIANTS TypeOK EveryLaterMessage NoDuplicateDelivery NoneToThoseWhoLeftInOrder StaysSubscribed NoneAfterUnsubscribedInOrder
 CHECK_DEADLOCK FALSE
